@@ -343,11 +343,12 @@ impl ChanceInfosetData {
 #[derive(Debug)]
 struct PlayerInfosetBuilder<A> {
     actions: Box<[A]>,
-    prev_infoset: Option<usize>,
+    /// the player's previous infoset and the index of the action taken there
+    prev_infoset: Option<(usize, usize)>,
 }
 
 impl<A> PlayerInfosetBuilder<A> {
-    fn new(actions: impl Into<Box<[A]>>, prev_infoset: Option<usize>) -> Self {
+    fn new(actions: impl Into<Box<[A]>>, prev_infoset: Option<(usize, usize)>) -> Self {
         PlayerInfosetBuilder {
             actions: actions.into(),
             prev_infoset,
@@ -367,7 +368,7 @@ impl<I, A> PlayerInfosetData<I, A> {
         PlayerInfosetData {
             infoset,
             actions: builder.actions,
-            prev_infoset: builder.prev_infoset,
+            prev_infoset: builder.prev_infoset.map(|(infoset, _)| infoset),
         }
     }
 
@@ -465,7 +466,7 @@ impl<I: Hash + Eq, A: Hash + Eq> Game<I, A> {
         player_infosets: &mut [&mut Builder<I, PlayerInfosetBuilder<A>>; 2],
         single_infosets: &mut [&mut HashMap<I, A>; 2],
         node: T,
-        mut prev_infosets: [Option<usize>; 2],
+        mut prev_infosets: [Option<(usize, usize)>; 2],
     ) -> Result<Node, GameError>
     where
         T: IntoGameNode<PlayerInfo = I, Action = A>,
@@ -571,10 +572,12 @@ impl<I: Hash + Eq, A: Hash + Eq> Game<I, A> {
                                 }
                             }
                         }?;
-                        *player_num.ind_mut(&mut prev_infosets) = Some(info_ind);
                         let next_verts: Result<Box<[_]>, _> = nexts
                             .into_iter()
-                            .map(|next| {
+                            .enumerate()
+                            .map(|(act_ind, next)| {
+                                // NOTE perfect recall means remembering the action taken too
+                                *player_num.ind_mut(&mut prev_infosets) = Some((info_ind, act_ind));
                                 Game::init_recurse(
                                     chance_infosets,
                                     player_infosets,
